@@ -7,7 +7,7 @@
    tool level is stated on the bytes of the BED file and of the output file. *)
 From Coq Require Import QArith.
 From BT Require Import Base.Util Base.Float Model.RTree Model.BBIFile Model.BigWigWrite Model.BBIRead
-  Model.BedStats Proofs.Chunks Proofs.BigWigQuery Proofs.BedStatsThms Proofs.BedStatsFloat Proofs.BedStatsRows.
+  Model.BedStats Proofs.Chunks Proofs.BigWigQuery Proofs.BedStatsThms Proofs.BedStatsFloat Proofs.BedStatsRows Proofs.BedStatsNames Proofs.BedStatsValues.
 Local Open Scope N_scope.
 
 (* size = e - s, bases = sum of the clipped lengths, sum = the code's accumulation over exactly the clipped
@@ -62,3 +62,40 @@ Theorem C17_chunking_irrelevant : forall fp q m minmax chunks, cuts_at_lines chu
   avg_parallel fp q m minmax chunks = avg_chunk fp q m minmax (concat chunks).
 Proof. exact chunking_irrelevant. Qed.
 Print Assumptions C17_chunking_irrelevant.
+
+(* a BED line made of the tab-separated fields chrom, start, end, extra...: parse_bed recovers them;
+   Column n (zero based) is field n for every field there is, Interval is chrom:start-end, None is the
+   whole line (followed by a tab when the line has only three fields) *)
+Theorem C17_name : forall chrom s e extra,
+  no_tab chrom -> Forall no_tab extra -> s < 2 ^ 32 -> e < 2 ^ 32 ->
+  let fields := chrom :: dec s :: dec e :: extra in
+  let line := join TAB fields in
+  let en := {| be_start := s; be_end := e; be_rest := join TAB extra |} in
+  trim_end line = line ->
+  parse_bed line = Ok (chrom, en) /\
+  (forall n f, nth_error fields n = Some f -> name_for_bed_item (NColumn n) chrom en = Ok f) /\
+  name_for_bed_item NInterval chrom en = Ok (chrom ++ [58] ++ dec s ++ [45] ++ dec e) /\
+  name_for_bed_item NNone chrom en = Ok (match extra with [] => line ++ [TAB] | _ => line end).
+Proof. exact name_of_fields. Qed.
+Print Assumptions C17_name.
+
+(* valuesoverbed: no index leaves the vector; one cell per base of the region; cell i is the bit pattern of
+   the stored value covering base s+i, and 0.0 where no value covers it *)
+Theorem C17_values_over_bed : forall len s e vals, wf_vals len vals -> s <= e ->
+  existsb (out_of_region s e) (clip_filter s e vals) = false /\
+  length (vob_fill s e (clip_filter s e vals)) = N.to_nat (e - s) /\
+  forall i, (i < N.to_nat (e - s))%nat ->
+    nth_error (vob_fill s e (clip_filter s e vals)) i =
+    Some (match find (covers (s + N.of_nat i)) vals with Some v => v_bits v | None => 0 end).
+Proof. exact values_spec. Qed.
+Print Assumptions C17_values_over_bed.
+
+(* the same over any stored list (not necessarily disjoint): the last covering value in file order *)
+Theorem C17_values_over_bed_last : forall s e vals, s <= e ->
+  existsb (out_of_region s e) (clip_filter s e vals) = false /\
+  length (vob_fill s e (clip_filter s e vals)) = N.to_nat (e - s) /\
+  forall i, (i < N.to_nat (e - s))%nat ->
+    nth_error (vob_fill s e (clip_filter s e vals)) i =
+    Some (match find (covers (s + N.of_nat i)) (rev vals) with Some v => v_bits v | None => 0 end).
+Proof. exact values_spec_last. Qed.
+Print Assumptions C17_values_over_bed_last.
